@@ -66,7 +66,7 @@ m = {
    "guard": "verif",
    "enable": "go build -tags 'verif verifgen' -overlay build/overlay.json -ldflags=-checklinkname=0 (done by ./check; overlay = Prepare() half generated from live source)",
    "baseline_off_cmd": BASELINE,
-   "source_commits": ["0a453f7"],
+   "source_commits": ["0a453f7", "f5939a8"],
    "add_only": True,
  },
  "engines": [
